@@ -38,7 +38,8 @@ MIN_NONTRIVIAL = {'quick': 12000, 'thorough': 200000}
 REQUIRED_MONITORS = ['boundary:PLSSDesc', 'boundary:find_twprge',
                      'contract:unpack_twprge', 'default-filled',
                      'hostile-neighbour', 'ocr', 'pair',
-                     'channel:config-object-vs-later-master', 'segment-mode']
+                     'channel:config-object-vs-later-master', 'segment-mode',
+                     'channel:master-after-creation']
 EXHAUSTIVE_SUBSPACES = {
     'thorough': ["compact spelling, t 1..199 x r 1..130, directions rotating"],
 }
@@ -121,6 +122,16 @@ def check(case, ctx, rep, pytrs):
             elif channel == 'master':
                 MC.default_ns, MC.default_ew = dns, dew
                 d = pytrs.PLSSDesc(txt, config=cfg('') or None)
+            elif channel == 'master-after-creation':
+                # the object exists before MasterConfig is set: the defaults
+                # in force when it is PARSED apply
+                MC.default_ns = 's' if dns == 'n' else 'n'
+                MC.default_ew = 'e' if dew == 'w' else 'w'
+                d = pytrs.PLSSDesc(txt, config=cfg('') or None,
+                                   wait_to_parse=True)
+                MC.default_ns, MC.default_ew = dns, dew
+                d.parse()
+                ctx.hit('channel:master-after-creation')
             elif channel == 'config-object-vs-later-master':
                 # The defaults are written into a Config object while
                 # MasterConfig happens to say the same; the object is then
@@ -373,6 +384,7 @@ def gen_case(rng):
             'form': name, 'channel': rng.choice(['config', 'keyword', 'master',
                                                  'keyword-over-config',
                                                  'mixed', 'mixed2',
+                                                 'master-after-creation',
                                                  'config-object-vs-later-master']),
             'text': txt, 'hostile': hostile,
             'segment': rng.random() < 0.25 and not hostile}
